@@ -241,3 +241,104 @@ Proof.
   all: split; [constructor|]; fin.
   all: destruct (Nat.eqb_spec k key); subst; auto; congruence.
 Qed.
+Lemma wit_upd ths t th th' t0 (P : thread -> Prop) :
+  nth_error ths t = Some th ->
+  (exists th0, nth_error ths t0 = Some th0 /\ P th0) ->
+  (P th -> P th') ->
+  exists th0, nth_error (upd_nth t th' ths) t0 = Some th0 /\ P th0.
+Proof.
+  intros Ht (th0 & H0 & HP) Himp. destruct (Nat.eq_dec t t0) as [->|Hne].
+  - exists th'. rewrite nth_upd_eq by (eapply nth_some_lt; eauto). split; auto.
+    apply Himp. congruence.
+  - exists th0. rewrite nth_upd_ne by auto. auto.
+Qed.
+
+Lemma step_at_cinv ch ths cfg cache srv c t th th' c' cfg' cache' l :
+  nth_error ths t = Some th ->
+  tinv ch cfg c t th -> cinv ch ths (t_cl th) c ->
+  step_at t th c cfg cache srv = Some (th', c', cfg', cache', l) ->
+  cinv ch (upd_nth t th' ths) (t_cl th) c'.
+Proof.
+  intros Ht Hi Hc H.
+  assert (Hlt : (t < length ths)%nat) by (eapply nth_some_lt; eauto).
+  destruct th as [cl path key p msg lat first init data wc new res].
+  crack H; cbn in *; subst p; destruct Hi, Hc; cbn in *; unfold sect_of in *; cbn in *; spec.
+  all: constructor; cbn; auto.
+  all: try (intros t0 Hr; eapply wit_upd; [eassumption|eauto|];
+            unfold sect_of, decide, ret, mdone; cbn; ifs; cbn; intuition (try discriminate; auto); fail).
+  all: try (intros k t0 Hr; eapply wit_upd; [eassumption|eauto|];
+            unfold sect_of, decide, ret, mdone; cbn; ifs; cbn; intuition (try discriminate; auto); fail).
+  - intros t0 [= <-]. eexists. rewrite nth_upd_eq by auto. cbn. auto.
+  - fin.
+  - intros k t0; destruct (Nat.eqb_spec k key) as [->|Hk]; intros Hr.
+    + injection Hr as <-. eexists. rewrite nth_upd_eq by auto. cbn. auto.
+    + eapply wit_upd; [eassumption|eauto|]. unfold sect_of; cbn.
+      intuition (try discriminate; try congruence; auto).
+  - intros k r; destruct (Nat.eqb_spec k key) as [->|Hk]; intros Hr; [discriminate|eauto].
+  - intros k t0; destruct (Nat.eqb_spec k key) as [->|Hk]; intros Hr; [discriminate|].
+    eapply wit_upd; [eassumption|eauto|]. unfold sect_of; cbn.
+    intuition (try discriminate; try congruence; auto).
+  - intros k r; destruct (Nat.eqb_spec k key) as [->|Hk]; intros Hr; [|eauto].
+    injection Hr as <-. auto.
+Qed.
+
+Lemma cinv_other ch ths ci c t th th' :
+  nth_error ths t = Some th -> t_cl th <> ci ->
+  cinv ch ths ci c -> cinv ch (upd_nth t th' ths) ci c.
+Proof.
+  intros Ht Hne [Hm Hn Hin Hrun Hd]. constructor; auto.
+  - intros t0 Hr. destruct (Hin t0 Hr) as (th0 & H0 & Hcl & Hs).
+    exists th0. rewrite nth_upd_ne; auto. intros ->. congruence.
+  - intros k t0 Hr. destruct (Hrun k t0 Hr) as (th0 & H0 & Hcl & Hs).
+    exists th0. rewrite nth_upd_ne; auto. intros ->. congruence.
+Qed.
+
+
+Lemma step_at_globals ch cfg cache srv c t th th' c' cfg' cache' l :
+  tinv ch cfg c t th -> hin ch cfg -> (forall k h, lookup k cache = Some h -> In h ch) ->
+  step_at t th c cfg cache srv = Some (th', c', cfg', cache', l) ->
+  hin ch cfg' /\ (forall k h, lookup k cache' = Some h -> In h ch).
+Proof.
+  intros Hi Hcfg Hcache H. destruct th as [cl path key p msg lat first init data wc new res].
+  crack H; cbn in *; subst p; destruct Hi; cbn in *; split; auto.
+  intros k h. destruct (Nat.eqb_spec k key); [intros [= <-]; auto|eauto].
+Qed.
+
+Lemma step_inv s t s' l : Inv s -> step s t = Some (s', l) -> Inv s'.
+Proof.
+  intros HI H. unfold step in H.
+  destruct (nth_error (s_threads s) t) as [th|] eqn:Ht; [|discriminate].
+  destruct (nth_error (s_clients s) (t_cl th)) as [c|] eqn:Hc; [|discriminate].
+  destruct (step_at t th c (s_cfg s) (s_cache s) (nth_error (s_chain s) (s_cur s)))
+    as [[[[[th' c'] cfg'] cache'] l']|] eqn:Hs; [|discriminate].
+  injection H as <- <-.
+  destruct (inv_threads s HI t th Ht) as (c0 & Hc0 & Hti). rewrite Hc in Hc0. injection Hc0 as <-.
+  pose proof (inv_clients s HI _ _ Hc) as Hci.
+  destruct (step_at_static _ _ _ _ _ _ _ _ _ _ _ Hs) as (Hcl & Hkey & Hpath & Hns).
+  assert (Hsrv : hin (s_chain s) (nth_error (s_chain s) (s_cur s))).
+  { destruct (nth_error (s_chain s) (s_cur s)) eqn:E; cbn; auto. eapply nth_error_In; eauto. }
+  destruct (step_at_globals _ _ _ _ _ _ _ _ _ _ _ _ Hti (inv_cfg s HI) (inv_cache s HI) Hs) as (Hcfg' & Hcache').
+  constructor; cbn; auto.
+  - intros t2 th2 H2. apply nth_upd in H2 as [(-> & -> & _)|(Hne & H2)].
+    + exists c'. rewrite Hcl. split.
+      * apply nth_upd_eq. eapply nth_some_lt; eauto.
+      * eapply step_at_tinv; eauto using ci_mem, ci_nonneg, inv_cfg, inv_cache, ci_done.
+    + destruct (inv_threads s HI t2 th2 H2) as (c2 & Hc2 & Hti2).
+      destruct (step_at_cext t2 _ _ _ _ _ _ _ _ _ _ _ _ Hne Hti Hs) as (Hext & Hmono).
+      destruct (Nat.eq_dec (t_cl th2) (t_cl th)) as [E|E].
+      * exists c'. rewrite E. split; [apply nth_upd_eq; eapply nth_some_lt; eauto|].
+        rewrite E, Hc in Hc2. injection Hc2 as <-. eapply tinv_frame; eauto.
+      * exists c2. rewrite nth_upd_ne by auto. split; auto.
+        eapply tinv_frame; eauto using cext_refl.
+  - intros ci2 c2 H2. apply nth_upd in H2 as [(-> & -> & _)|(Hne & H2)].
+    + eapply step_at_cinv; eauto.
+    + eapply cinv_other; eauto. eapply inv_clients; eauto.
+  - apply inv_cur; auto.
+Qed.
+
+Lemma grow_inv s s' : Inv s -> grow s = Some s' -> Inv s'.
+Proof.
+  intros HI H. unfold grow in H.
+  destruct (Nat.ltb_spec (S (s_cur s)) (length (s_chain s))); [|discriminate].
+  injection H as <-. destruct HI. constructor; cbn; auto.
+Qed.
